@@ -221,6 +221,25 @@ def universe(tier):
                 if isinstance(t, S.TSeq) and isinstance(t.base, S.TTupl) and not t.base.admissible():
                     continue
                 terms.append(t)
+    # parameter sweep of the parameterised base combinators: every IntSpaces (max_int, max_spaces) with at most 36 codes, every
+    # Spaces starting character, every MultiDigit (base, digits) with at most 36 codes
+    sweep = []
+    for mi in range(0, 36):
+        for ms in range(0, 36):
+            if (mi + 1) * (ms + 1) <= 36:
+                sweep.append(S.TIntSpaces(-1, mi, ms))
+    for c in S.B36:
+        sweep.append(S.TSpaces(0, c))
+    for base in range(2, 7):
+        for digits in range(1, 6):
+            if base ** digits <= 36:
+                sweep.append(S.TMultiDigit(base, digits))
+    have = set(t.name for t in bases)
+    for x in sweep:
+        if x.name in have:
+            continue
+        terms.append(S.TSeq(x, 3))
+        terms.append(S.TGrid(x, 2, 3))
     # rooms
     terms.append(S.TRooms())
     terms.append(S.TRooms(skip_on_error=True))
@@ -302,7 +321,7 @@ def main(tier, seed, only=None):
         shards = [s for s in shards if s[0] == only]
     run = harness.Run(
         PID, tier, seed, "exploration",
-        "terms: 14 parameterised base combinators (FixStr, Dict, Spaces x4, DecInt, HexInt, IntSpaces x3, MultiDigit x3), every FIRST-disjoint "
+        "terms: 14 parameterised base combinators (FixStr, Dict, Spaces x4, DecInt, HexInt, IntSpaces x3, MultiDigit x3; plus, as Seq(.,3) and Grid(.,2,3), EVERY IntSpaces / MultiDigit parameter pair with <= 36 codes and every Spaces start character), every FIRST-disjoint "
         "OneOf of 2-3 alternatives from a 12-entry menu, Seq(n in 0..5/7) and Grid (env-sized on boards h,w in 1..3; fixed incl. zero "
         "dimensions) over all of them, Tupl pairs/triples with FixStr separators, nested Seq/Tupl/Grid to depth 3, Rooms, ValuedRooms over 5 "
         "value combinators, Tupl with Rooms.  Values: all sequences over each alphabet while <= cap else a boundary family; boundary values "
